@@ -732,3 +732,75 @@ Proof.
   - lia.
 Qed.
 
+
+(* ---------- whole operations ---------- *)
+Lemma load_dyn_list_same : forall W o st spec0 range asset in_dyn root attr count,
+  st_dyn (load W o st spec0 range asset in_dyn root attr count) = st_dyn st.
+Proof.
+  intros. unfold load.
+  repeat match goal with
+  | |- context [if ?c then _ else _] => destruct c
+  | |- context [match ?m with _ => _ end] => destruct m
+  end; reflexivity.
+Qed.
+
+Lemma load_roots_dyn : forall W o roots st, st_dyn (load_roots W o st roots) = st_dyn st.
+Proof.
+  intros W o roots. induction roots as [|r rs IH]; intro st; cbn [load_roots]; [reflexivity|].
+  rewrite IH. apply load_dyn_list_same.
+Qed.
+
+Lemma load_import_deps_dyn : forall W o ds st, st_dyn (load_import_deps W o st ds) = st_dyn st.
+Proof.
+  intros W o ds. induction ds as [|d ds IH]; intro st; cbn [load_import_deps]; [reflexivity|].
+  rewrite IH. destruct (d_type d); try reflexivity. apply load_dyn_list_same.
+Qed.
+
+Lemma load_imports_dyn : forall W o imps st, st_dyn (load_imports W o st imps) = st_dyn st.
+Proof.
+  intros W o imps. induction imps as [|[k ds] rest IH]; intro st; cbn [load_imports]; [reflexivity|].
+  rewrite IH. apply load_import_deps_dyn.
+Qed.
+
+Lemma reload_specs_dyn : forall W o specs st, st_dyn (reload_specs W o st specs) = st_dyn st.
+Proof.
+  intros W o specs. induction specs as [|s rest IH]; intro st; cbn [reload_specs]; [reflexivity|].
+  rewrite IH. rewrite load_dyn_list_same. reflexivity.
+Qed.
+
+(* C03: a build returns, whatever the loader answers and whatever graph it starts from *)
+Theorem build_terminates : forall W o g roots imports,
+  no_pending (bg_slots g) -> build W o g roots imports <> None.
+Proof.
+  intros W o g roots imports Hg. unfold build.
+  match goal with |- context [resolve_pending (term_fuel W ?st) W o ?st] => set (st2 := st) end.
+  assert (HT : resolve_pending (term_fuel W st2) W o st2 <> None).
+  { apply resolve_pending_term_fuel.
+    - unfold st2. apply load_imports_inv. apply load_roots_inv. apply init_state_inv. exact Hg.
+    - intros _. unfold st2. rewrite load_imports_dyn, load_roots_dyn. reflexivity. }
+  destruct (resolve_pending (term_fuel W st2) W o st2); [discriminate | contradiction].
+Qed.
+
+Theorem reload_terminates : forall W o g specs,
+  no_pending (bg_slots g) -> reload W o g specs <> None.
+Proof.
+  intros W o g specs Hg. unfold reload.
+  match goal with |- context [resolve_pending (term_fuel W ?st) W o ?st] => set (st1 := st) end.
+  assert (HT : resolve_pending (term_fuel W st1) W o st1 <> None).
+  { apply resolve_pending_term_fuel.
+    - unfold st1. apply reload_specs_inv. apply init_state_inv. exact Hg.
+    - intros _. unfold st1. rewrite reload_specs_dyn. reflexivity. }
+  destruct (resolve_pending (term_fuel W st1) W o st1); [discriminate | contradiction].
+Qed.
+
+(* every graph reached by a history of builds and reloads from the empty graph exists (the model never
+   runs out of fuel) and has no pending entry *)
+Theorem build_from_empty_terminates : forall W o k roots imports,
+  exists g, build W o (empty_bgraph k) roots imports = Some g /\ no_pending (bg_slots g).
+Proof.
+  intros W o k roots imports.
+  assert (He : no_pending (bg_slots (empty_bgraph k))) by (intros s a H; discriminate).
+  destruct (build W o (empty_bgraph k) roots imports) as [g|] eqn:Eb.
+  - exists g. split; [reflexivity|]. eapply build_no_pending; eassumption.
+  - exfalso. eapply build_terminates; eassumption.
+Qed.
